@@ -12,6 +12,6 @@ def run(ctx):
                           env={"VERIF_GRAPH": real["dot"], "VERIF_SCALE": 1}, timeout=900)
     vlib.absorb(ctx, rep, "cover-real")
     ctx.assumptions += ["TLC 1.8.0", "scripted io.Reader/io.Writer alphabet", "the ring-buffer pool is primed so that lazy allocation returns the capacity chosen by the model (checked, mismatch = non-conformance)",
-                        "named deviation MixWriteToStopsOnEmptyRing: Buffer.WriteTo writes nothing when the ring part is unallocated/empty"]
+                        ]
     return vlib.finish(ctx, "model_checking",
                        "one case = one labelled edge (ring representation x list segments x static limit, operation, arguments/script, pool capacity) of the TLC state graph of Elastic.tla replayed on a real elastic.Buffer; distinct = distinct (source state, label)")
